@@ -183,6 +183,19 @@ def program_src(prog):
     return "".join(out)
 
 
+def two_module_src(prog):
+    """The same program as two modules: `glib` declares the globals, the main module imports it
+    and holds the functions (struct types are module-local, so both define them).  In this form
+    a local may carry the name of a global of the library (it shadows it)."""
+    structs = "struct P { int x; float y; }\n"
+    if '"structq"' in json.dumps([prog["functions"], prog["globals"]]):
+        structs += "struct Q { P p; int[2] a; int z; }\n"
+    lib = structs + "".join(f"{type_src(t)} {name};\n" for name, t in prog["globals"])
+    lib += "export function glib_id(int a) -> int {\n  return a;\n}\n"
+    main = 'import "glib";\n' + structs + "".join(function_src(f) for f in prog["functions"])
+    return lib, main
+
+
 # ------------------------------------------------------------------ reference state machine
 
 
